@@ -626,26 +626,56 @@ if first[0, 4] != 5.0 or not np.array_equal(second, exp) or not np.array_equal(t
 
 @unit("C14", "array.current")
 def array_current(u: Unit):
-    """Charge.array (getter) in a history. The container is built by the REAL Charge.__init__ (whatever private fields it has), given a
-    non-empty cluster table T; then: read (must be bin(T)), the table OBJECT is edited in place to content T' (what set_frame_values,
-    remove_from_frame(ids) and models writing through charge.frame do — same DataFrame object), read again: the result is bin(T'),
-    not bin(T). convert_df_to_array is the contract of unit `bin` (the array is a function of the table content)."""
+    """Charge.array (getter) in a history made of the container's OWN operations. The container is built by the real Charge.__init__
+    (whatever private fields it has); a cluster table T is added through the real add_charge_dataframe; then: read (must be bin(T)); the
+    table is edited IN PLACE through the real set_frame_values / remove_from_frame(ids) (pandas DataFrame.update / query(inplace=True) are
+    the boundary: same DataFrame object, new content T'), or replaced through a second add_charge_dataframe, or left alone; read again:
+    the result is the binning of the table as it is THEN. convert_df_to_array is the contract of unit `bin` (the array is a function
+    of the table content)."""
     cci = u.cls(f"{CH}::Charge")
     fg = cci.getters["array"]
-    u.fn(f"{CH}::Charge.__init__")
+    for q in ("__init__", "add_charge_dataframe", "set_frame_values", "remove_from_frame"):
+        u.fn(f"{CH}::Charge.{q}")
     u.functions.setdefault(fg.qualname, {"sha": fg.sha, "file_sha": fg.module.sha, "paths": 0, "obligations": 0, "role": "under contract"})
     BIN = z3.Function("binned_table", z3.IntSort(), z3.IntSort(), z3.IntSort(), z3.RealSort())
     cq = f"{CH}::Charge.convert_df_to_array"
-    for edit in ("in place", "replaced", "none"):
+    COLS = ("charge", "number", "init_energy", "energy", "init_pos_ver", "init_pos_hor", "init_pos_z", "position_ver", "position_hor", "position_z", "velocity_ver", "velocity_hor", "velocity_z")
+    for edit in ("set_frame_values", "remove_from_frame(ids)", "second add", "none"):
         cfg = D.install(Cfg("real"))
         base_attr = cfg.lib_overrides[("opaque_attr", "df")]
-        cfg.lib_overrides[("opaque_attr", "df")] = lambda ex, obj, name, fr, base_attr=base_attr: VTuple([VStr("number")]) if name == "columns" else base_attr(ex, obj, name, fr)
-        cfg.lib_overrides["pandas.DataFrame"] = lambda ex, f, args, kwargs, fr: D.df_obj(ex, z3.IntVal(0))
+
+        def df_attr(ex, obj, name, fr, base_attr=base_attr):
+            if name == "columns":
+                return VTuple([VStr(c) for c in COLS])
+            if name in ("update", "query"):
+                return VLib("df." + name, obj)
+            return base_attr(ex, obj, name, fr)
+
+        def df_edit(ex, f, args, kwargs, fr):
+            # DataFrame.update(other) / DataFrame.query(expr, inplace=True): the SAME object afterwards holds other rows / values
+            t = f.self_val
+            if f.name == "df.query" and ex.truth(kwargs.get("inplace", VBool(False))) is not True:
+                return D.df_obj(ex, ex.st.fresh_int("n_selected"))
+            t.info["content"] = ex.st.fresh_int("df_content_after_edit")
+            if f.name == "df.query":
+                n = ex.st.fresh_int("n_left")
+                ex.st.assume(z3.And(n >= 1, n <= z_int(t.info["nrows"])))
+                t.info["nrows"] = n
+            return NONE
+        cfg.lib_overrides[("opaque_attr", "df")] = df_attr
+        cfg.lib_overrides["df.update"] = df_edit
+        cfg.lib_overrides["df.query"] = df_edit
+        cfg.lib_overrides["pandas.DataFrame"] = lambda ex, f, args, kwargs, fr: D.df_obj(ex, z3.IntVal(0) if not args and "data" not in kwargs else ex.st.fresh_int("n_rows"))
+        def concat(ex, f, args, kwargs, fr):
+            n = z3.IntVal(0)
+            for x in (ex.try_list(args[0]) or []):
+                n = n + z_int(x.info["nrows"])
+            return D.df_obj(ex, z3.simplify(n))                 # as many rows as its parts together, new content
+        cfg.lib_overrides["pandas.concat"] = concat
         hold = {}
 
         def rebin(ex, args, kwargs, fr, hold=hold):
             fr_ = ex.st.cell(args[0]).fields["_frame"]
-            hold["conversions"] = hold.get("conversions", 0) + 1
             return ex.st.alloc(HArr((D.ROWS, D.COLS), VDtype("float64"), lambda ix, t=fr_.info["content"]: VFloat(BIN(t, z_int(ix[0]), z_int(ix[1])))))
         cfg.contracts[cq] = Contract(cq, rebin, "C14.bin.*: the array is a function of the cluster table")
 
@@ -657,24 +687,25 @@ def array_current(u: Unit):
             try:
                 ch = ex.instantiate(cci, [], {"geo": ex.det_parts["geo"]}, fr0)
                 st.assume(z3.Int("n_clusters") > 0)
-                table = D.df_obj(ex, z3.Int("n_clusters"), content=z3.Int("table_T"))
-                st.cell(ch).fields["_frame"] = table
-                first = ex.getattr(ch, "array", fr0)
-                hold["first"] = first
-                if edit == "in place":
-                    table.info["content"] = z3.Int("table_T_edited")
-                    hold["want"] = z3.Int("table_T_edited")
-                elif edit == "replaced":
+                table = D.df_obj(ex, z3.Int("n_clusters"))
+                ex.call(ex.getattr(ch, "add_charge_dataframe", fr0), [table], {}, fr0)
+                now = st.cell(ch).fields["_frame"]
+                hold["t1"] = now.info["content"]
+                hold["first"] = ex.getattr(ch, "array", fr0)
+                if edit == "set_frame_values":
+                    ex.call(ex.getattr(ch, "set_frame_values", fr0), [VStr("number"), st.alloc(HList([VFloat(z3.Real("new_number"))]))], {}, fr0)
+                elif edit == "remove_from_frame(ids)":
+                    ex.call(ex.getattr(ch, "remove_from_frame", fr0), [], {"id_list": st.alloc(HList([VInt(z3.Int("removed_id"))]))}, fr0)
+                elif edit == "second add":
                     st.assume(z3.Int("n_clusters2") > 0)
-                    st.cell(ch).fields["_frame"] = D.df_obj(ex, z3.Int("n_clusters2"), content=z3.Int("table_T2"))
-                    hold["want"] = z3.Int("table_T2")
-                else:
-                    hold["want"] = z3.Int("table_T")
+                    ex.call(ex.getattr(ch, "add_charge_dataframe", fr0), [D.df_obj(ex, z3.Int("n_clusters2"))], {}, fr0)
+                hold["want"] = st.cell(ch).fields["_frame"].info["content"]
+                hold["same_object"] = st.cell(ch).fields["_frame"] is now
             except PyExc as pe:
                 hold["failed"] = ex.exc_class_name(pe.val)
                 ch = ex.det_parts["charge"]
             return [ch], {}
-        ps = u.paths(fg, setup, cfg, label=f"Charge.array[read, table {edit}, read]")
+        ps = u.paths(fg, setup, cfg, label=f"Charge.array[read, {edit}, read]")
         for p in ps:
             if p.kind != "return" or hold.get("failed") or not p.ex.is_arr(p.value):
                 u.oblige(p, f"array.current[{edit}].returns_array", False, {"exc": p.exc_name() or hold.get("failed")}, CURRENT_REPLAY, fnq=fg.qualname)
@@ -682,7 +713,7 @@ def array_current(u: Unit):
             f1 = p.st.cell(hold["first"])
             out = p.st.cell(p.value)
             g = (D.GEN[0], D.GEN[1])
-            u.oblige(p, f"array.current[{edit}].first_read", to_real(f1.elem(g)) == BIN(z3.Int("table_T"), g[0], g[1]), {}, CURRENT_REPLAY, fnq=fg.qualname)
+            u.oblige(p, f"array.current[{edit}].first_read", to_real(f1.elem(g)) == BIN(hold["t1"], g[0], g[1]), {}, CURRENT_REPLAY, fnq=fg.qualname)
             u.oblige(p, f"array.current[{edit}].read_after", z3.And(to_real(out.elem(g)) == BIN(hold["want"], g[0], g[1]), z_int(out.shape[0]) == D.ROWS, z_int(out.shape[1]) == D.COLS),
-                     {"table": edit}, CURRENT_REPLAY, fnq=fg.qualname)
+                     {"table": edit, "same DataFrame object": hold.get("same_object")}, CURRENT_REPLAY, fnq=fg.qualname)
         u.cover(f"array.current.cover[{edit}]", ps, lambda p: p.kind == "return")
